@@ -4,7 +4,9 @@ package c15
 import (
 	"bytes"
 	"errors"
+	"io"
 
+	"go.pennock.tech/tabular"
 	"go.pennock.tech/tabular/auto"
 	"go.pennock.tech/tabular/properties/align"
 
@@ -26,6 +28,12 @@ type Case struct {
 	Align  []int      `json:"align,omitempty"`
 	K      *int       `json:"k,omitempty"`
 	Mode   string     `json:"mode,omitempty"`
+	// Err: which error value the writer reports: "" a private error, "eof" io.EOF, "short" io.ErrShortWrite, "closed" io.ErrClosedPipe
+	Err string `json:"err,omitempty"`
+	// Rich: the writer also offers WriteString and WriteByte (like bytes.Buffer and bufio.Writer); a call to any of the three counts
+	Rich bool `json:"rich,omitempty"`
+	// Repeat: the script's rows are replayed this many times more (big tables cross internal buffer sizes)
+	Repeat int `json:"repeat,omitempty"`
 }
 
 var errFault = errors.New("injected write failure")
@@ -35,6 +43,7 @@ var errFault = errors.New("injected write failure")
 type faultWriter struct {
 	k        int
 	mode     string
+	err      error
 	calls    int
 	accepted bytes.Buffer
 }
@@ -42,31 +51,67 @@ type faultWriter struct {
 func (w *faultWriter) Write(p []byte) (int, error) {
 	i := w.calls
 	w.calls++
+	e := w.err
+	if e == nil {
+		e = errFault
+	}
 	switch {
 	case w.mode == "from" && i >= w.k, w.mode == "once" && i == w.k:
-		return 0, errFault
+		return 0, e
 	case w.mode == "partial" && i == w.k:
 		n := len(p) / 2
 		w.accepted.Write(p[:n])
-		return n, errFault
+		return n, e
 	}
 	w.accepted.Write(p)
 	return len(p), nil
 }
 
-type countWriter struct {
-	calls int
-	buf   bytes.Buffer
+// richWriter adds the optional fast-path methods some renderers may look for.
+type richWriter struct{ *faultWriter }
+
+func (w richWriter) WriteString(s string) (int, error) { return w.faultWriter.Write([]byte(s)) }
+func (w richWriter) WriteByte(c byte) error {
+	_, err := w.faultWriter.Write([]byte{c})
+	return err
 }
 
-func (w *countWriter) Write(p []byte) (int, error) {
-	w.calls++
-	return w.buf.Write(p)
+func errOf(kind string) error {
+	switch kind {
+	case "eof":
+		return io.EOF
+	case "short":
+		return io.ErrShortWrite
+	case "closed":
+		return io.ErrClosedPipe
+	}
+	return nil
+}
+
+func (c Case) writer(fw *faultWriter) io.Writer {
+	fw.err = errOf(c.Err)
+	if c.Rich {
+		return richWriter{fw}
+	}
+	return fw
+}
+
+// build makes the table, replaying the rows Repeat more times.
+func build(c Case) tabular.Table {
+	t, _ := gen.Build(c.Script)
+	for i := 0; i < c.Repeat; i++ {
+		for _, op := range c.Script.Ops {
+			if op.K == "rowitems" || op.K == "sep" {
+				(&gen.Model{}).Step(t, op)
+			}
+		}
+	}
+	return t
 }
 
 // FaultPoint runs one injected fault on a freshly built table.
 func FaultPoint(c Case, k int, mode string, want string) *ev.Violation {
-	t, _ := gen.Build(c.Script)
+	t := build(c)
 	n := t.NColumns()
 	for i := 0; i <= n && i < len(c.Align); i++ {
 		if v := tc.AlignValue(c.Align[i]); v != nil {
@@ -77,7 +122,7 @@ func FaultPoint(c Case, k int, mode string, want string) *ev.Violation {
 	var err error
 	rw := auto.Wrap(t, c.Style)
 	if v := ev.Guard(func() *ev.Violation {
-		err = rw.RenderTo(fw)
+		err = rw.RenderTo(c.writer(fw))
 		return nil
 	}); v != nil {
 		return ev.V("%s, write %d fails (%s): %s", c.Style, k, mode, v.Msg)
@@ -96,7 +141,7 @@ func FaultPoint(c Case, k int, mode string, want string) *ev.Violation {
 	// (the prefix property holds for that render too), then with a healthy one (the full output)
 	fw2 := &faultWriter{k: (k + 1) / 2, mode: "once"}
 	var err2 error
-	if v := ev.Guard(func() *ev.Violation { err2 = rw.RenderTo(fw2); return nil }); v != nil {
+	if v := ev.Guard(func() *ev.Violation { err2 = rw.RenderTo(c.writer(fw2)); return nil }); v != nil {
 		return ev.V("%s: second render on the wrapper after a failed one: %s", c.Style, v.Msg)
 	}
 	if fw2.calls > fw2.k {
@@ -117,18 +162,19 @@ func FaultPoint(c Case, k int, mode string, want string) *ev.Violation {
 
 // Points returns the number of Write calls of the fault-free render (0 if it fails) and its output.
 func Points(c Case) (int, string) {
-	t, _ := gen.Build(c.Script)
+	t := build(c)
 	n := t.NColumns()
 	for i := 0; i <= n && i < len(c.Align); i++ {
 		if v := tc.AlignValue(c.Align[i]); v != nil {
 			t.Column(i).SetProperty(align.PropertyType, v)
 		}
 	}
-	var cw countWriter
-	if err := auto.RenderTo(t, &cw, c.Style); err != nil {
+	// count with the same kind of writer that will be used (a rich writer may be written to differently)
+	fw := &faultWriter{k: -1, mode: "none"}
+	if err := auto.RenderTo(t, c.writer(fw), c.Style); err != nil {
 		return 0, ""
 	}
-	return cw.calls, cw.buf.String()
+	return fw.calls, fw.accepted.String()
 }
 
 // CheckCase enumerates every fault point (or the pinned one).
